@@ -28,6 +28,8 @@ Scenario (JSON-serialisable dict, every time in absolute virtual milliseconds, -
                                  close-delimited response body
   cancel      None | ms          Task.cancel() of R at that instant; events listed at the same
                                  instant are performed BEFORE the cancel in the same callback
+  expect100   1: the request is sent with `Expect: 100-continue` (body only after a 1xx arrived); with `wresume` the
+              transport then pauses at the body write instead of the head write
   c0          0|1|2: Task.cancelling() of the calling task when it starts the request (pre-cancelled and caught)
   think       ms the consumer sleeps after the headers before reading the body
   slow        1: the consumer streams instead: readany(), sleep `think`, readany(), ... until EOF
@@ -89,6 +91,8 @@ class MemTransport(asyncio.Transport):
         self.auto = owner != "R"      # auto-respond to complete request heads
         self.hold = False             # holder: respond only when released
         self.pause_on_write = False
+        self.pause_from_write = 1   # pause at this (1-based) write call: 2 = let the request head through
+        self.nwrites = 0
         self.wpaused = False
         self.answered = 0
         self.rqueue = []
@@ -101,7 +105,8 @@ class MemTransport(asyncio.Transport):
         if self.closing:
             return
         self.out += bytes(data)
-        if self.pause_on_write and not self.wpaused:
+        self.nwrites += 1
+        if self.pause_on_write and not self.wpaused and self.nwrites >= self.pause_from_write:
             self.pause_on_write = False
             self.wpaused = True
             self.proto.pause_writing()
@@ -302,6 +307,8 @@ class Env:
             tr.hold = True
         if tr.owner == "R" and self.sc.get("wresume") is not None and not self.unstalled:
             tr.pause_on_write = True
+            if self.sc.get("expect100"):
+                tr.pause_from_write = 2      # the head goes out, the body (after 100 Continue) hits the full buffer
         self.transports.append(tr)
         if tr.owner == "R":
             self.trace["established"].append(self.now())
@@ -377,6 +384,8 @@ def run_scenario(sc):
                 at["c_before"] = me.cancelling()
             try:
                 kw = {} if timeout is None else {"timeout": timeout}
+                if name == "R" and sc.get("expect100"):
+                    kw["expect100"] = True
                 async with session.request("POST" if data else "GET", url, data=data, **kw) as r:
                     if name == "R":
                         at["headers"] = ms(loop)
